@@ -46,64 +46,40 @@ fn gen_case(r: &mut Rng, tier: &str) -> Case {
     let mut stream = "";
     let mut wlen = n;
     let sel = r.below(100);
-    if sel < 4 {
-        // known-finding stream: the number of distinct ids is not 2
+    if sel < 4 && n >= 3 {
+        // known-finding stream: more than two distinct ids (unimplemented!(), property C02)
         stream = "kf_";
-        match r.below(3) {
-            0 => p0 = vec![ida; n],
-            1 => {
-                let i = r.below(n as u64) as usize;
-                p0[i] = 9;
-                if distinct(&p0) == 2 {
-                    p0 = vec![idb; n];
-                }
+        let i = r.below(n as u64) as usize;
+        p0[i] = 9;
+        if distinct(&p0) < 3 {
+            p0[(i + 1) % n] = 11;
+            p0[(i + 2) % n] = 12;
+        }
+    } else if sel < 12 && n >= 2 {
+        // malformed stream: outside the usage contract
+        stream = "malformed_";
+        match r.below(5) {
+            0 => wlen = n - 1,
+            1 => wlen = n + 2,
+            2 => {
+                // partition longer than the graph
+                p0.push(if r.chance(1, 2) { ida } else { idb });
+                wlen = p0.len();
+            }
+            3 => {
+                // partition shorter than the graph
+                p0.pop();
+                wlen = p0.len();
             }
             _ => {
-                adj = Vec::new();
-                p0 = Vec::new();
-                wlen = 0;
-            }
-        }
-    } else {
-        // both parts non-empty
-        if distinct(&p0) != 2 {
-            if n >= 2 {
-                p0 = vec![ida; n];
-                let i = r.below(n as u64) as usize;
-                p0[i] = idb;
-            } else {
-                stream = "kf_";
-            }
-        }
-        if sel < 12 && n >= 2 {
-            // malformed stream: outside the usage contract
-            stream = "malformed_";
-            match r.below(5) {
-                0 => wlen = n - 1,
-                1 => wlen = n + 2,
-                2 => {
-                    // partition longer than the graph
-                    p0.push(if r.chance(1, 2) { ida } else { idb });
-                    wlen = p0.len();
-                }
-                3 => {
-                    // partition shorter than the graph
-                    p0.pop();
-                    wlen = p0.len();
-                    if distinct(&p0) != 2 {
-                        stream = "kf_";
-                    }
-                }
-                _ => {
-                    // a directed edge (non-symmetric matrix) or a self-loop
-                    let u = r.below(n as u64) as usize;
-                    let v = r.below(n as u64) as usize;
-                    if !adj[u].iter().any(|(x, _)| *x == v) {
-                        adj[u].push((v, r.range(1, 5)));
-                        adj[u].sort();
-                    } else {
-                        wlen = 0;
-                    }
+                // a directed edge (non-symmetric matrix) or a self-loop
+                let u = r.below(n as u64) as usize;
+                let v = r.below(n as u64) as usize;
+                if !adj[u].iter().any(|(x, _)| *x == v) {
+                    adj[u].push((v, r.range(1, 5)));
+                    adj[u].sort();
+                } else {
+                    wlen = 0;
                 }
             }
         }
@@ -181,7 +157,7 @@ fn main() {
             c.mb,
             coq_impl_partition(&res)
         );
-        let kf = if distinct(&c.p0) != 2 {
+        let kf = if distinct(&c.p0) > 2 {
             "\"kf\":\"kl-not-two-parts\","
         } else {
             ""
@@ -198,10 +174,11 @@ fn main() {
             json_impl_partition(&res)
         );
         let key = format!("{:?}|{}|{:?}|{:?}|{:?}|{}", c.adj, c.wlen, c.p0, c.mp, c.mf, c.mb);
-        // non-trivial: in the contract stream, at least 4 vertices, at least one pass and one flip allowed
+        // non-trivial: in the contract stream, at least 4 vertices, two parts, at least one pass and one flip allowed
         let nontrivial = !c.fam.starts_with("kf_")
             && !c.fam.starts_with("malformed_")
             && n >= 4
+            && distinct(&c.p0) == 2
             && c.mp != Some(0)
             && c.mf != Some(0);
         w.push(coq, json, &key, nontrivial, &c.fam);
